@@ -83,7 +83,14 @@ SPEC = dict(
 def build(reg):
     """the Engine-A part: MPS readers on the factor-list model"""
     from contracts import mps_readers
+    # fill_results: every due observable is handed the NORMALISED state (directly, or the dark-atom padding of its
+    # factors) -- the data-flow contracts shared with C25 / C03 (registered first: the readers' model of the MPS
+    # class, registered afterwards, is the one the reader contracts need)
+    from contracts import mps_dataflow as D, mps_dataflow_sites as S
+    D.register(reg, ID)
+    S.register(reg, ID)
     targets = mps_readers.register_c13(reg, ID)
+    targets = list(targets) + [f"{D.IMPL}:MPSBackendImpl.fill_results[no filter]", f"{D.IMPL}:MPSBackendImpl.fill_results[filter]"]
     return dict(
         targets=targets,
         explanation=(
@@ -110,7 +117,9 @@ def build(reg):
             "the numerical formulas themselves (that contracting op with the centre tensor gives <op>, the transfer "
             "recursion of the correlation matrix, entropy from the singular values): trusted linear-algebra links, "
             "checked only natively against dense definitions (replay/c13_mps.py)",
-            "extended_mps_factors / extended_mpo_factors (list building over a symbolic mask): not verified; "
+            "the normalisation in fill_results IS decided: every due observable receives coeff * state with coeff * |state| == 1, "
+            "or the padding built from that state's factors (fill_results[no filter] / [filter])",
+            "extended_mps_factors / extended_mpo_factors (list building over a symbolic mask): verified under C25; "
             "that their inserted |0> factors are orthonormal both ways, so that Canon carries over to the padded "
             "state with the centre given by get_extended_site_index",
             "MPO.expect / MPO.__matmul__ (full contraction, zip-up): uninterpreted here",
